@@ -78,6 +78,14 @@ claim("C10", "MIR construction-site gate (must-pass-success of check_validity) +
       "fields; DIDUrl composes did then url; the five character classes equal the specification sets exactly and every percent escape requires '%' + exactly two hex digits.",
       "what the external did_url_parser accepts/normalises (incl. its panic on a trailing percent escape, reported under C05); verbatim reproduction of the input.", "DESIGN.md §7 C10")
 
+claim("C06", "constant-agreement of the legacy-format magic with the writer's zlib header (computed from the spec bytes) + writer/reader pairing + short-write/io-result discipline + HIR provenance of the read-modify-write + loop-shape of the batch closures",
+      "Decides for all bitmaps/batches: the prefix separating the current from the legacy encoding is a prefix of the only input-independent characters the writer emits (zlib header 78 9C → \"eJ\") and "
+      "does not match legacy strings; writer and reader agree on Base64Url, zlib (complete writes, io results propagated), roaring serialize_into/deserialize_from and the data-url prefix; "
+      "update_revocation_bitmap decodes from the queried service, applies the closure once and swaps in to_endpoint() of that bitmap after its error was propagated; the revoke/unrevoke closures apply "
+      "their operation to every element of `indices` unconditionally; revoke↔insert, unrevoke↔remove, is_revoked↔contains; status entry: type equality, string index parsed as u32, every index query "
+      "pair equal to it (the validator side is C02-R5).",
+      "roaring set semantics and serialisation; zlib/base64 on concrete data.", "DESIGN.md §7 C06")
+
 for _p, _r in {
     "C01": "rules not yet implemented in this revision (planned, DESIGN §7)", "C02": "rules not yet implemented in this revision",
     "C03": "rules not yet implemented in this revision", "C04": "rules not yet implemented in this revision",
